@@ -109,7 +109,9 @@ DropEvents ==
 Drop == DropWith(DropEvents)
 ChildPanic == PanicWith(DropEvents)
 
-Next == EnvNext \/ PollBegin \/ ScanStep \/ ChildAnswer \/ ChildPanic \/ Drop
+\* race asserts `!done`; race_ok is left alone (no guard in the array / Vec impls)
+Repoll == IsRace /\ RepollPanics(DropEvents)
+Next == EnvNext \/ PollBegin \/ ScanStep \/ ChildAnswer \/ ChildPanic \/ Drop \/ Repoll
 NextLive == Next \/ \E c \in Ch : OwedWake(c)
 
 Spec == Init /\ [][Next]_vars
